@@ -70,6 +70,11 @@ func c14ChurnOnce(seed int64, tname string, workers, per int) *c14ChurnRun {
 			end := []scripted.EndKind{scripted.EndFIN, scripted.EndRST, scripted.EndHalfClose}[q.Conn%3]
 			return scripted.Action{Tag: "reply-then-kill", End: end}
 		}
+		if strings.HasPrefix(q.Name, "churnbig") {
+			// a reply larger than any buffered reader's buffer (1.5-4 kB), on whatever connection the
+			// query arrives
+			return scripted.Action{Tag: "echo-big", PadTo: 1500 + (q.Conn*131+q.ConnSeq*17)%2500}
+		}
 		if pipelined && q.ConnSeq%2 == 1 {
 			// a duplicate-looking reply for an id that was already answered on this connection: nobody
 			// waits for it, the transport must drop it - while other callers enter and leave the
@@ -102,6 +107,9 @@ func c14ChurnOnce(seed int64, tname string, workers, per int) *c14ChurnRun {
 	one := func() {
 		n := seq.Add(1)
 		name := fmt.Sprintf("churn%d.%s.c14.test.", n, tname)
+		if n%5 == 3 {
+			name = "churnbig" + name[5:]
+		}
 		q := scripted.BuildQuery(uint16(n*31+7), name, 1, 1)
 		const deadline = 3 * time.Second
 		ctx, cancel := context.WithTimeout(context.Background(), deadline)
@@ -226,7 +234,7 @@ func c14Churn(c *Ctx) {
 		c.Ev.Count("churn_connections_killed_by_server:"+tname, int64(run.Kills))
 		c.Ev.Count("churn_connections_accepted:"+tname, int64(run.Accepts))
 		c.Ev.Count("churn_failures_without_retry_not_judged:"+tname, int64(run.FreshFail))
-		if run.Kills == 0 && len(run.Late) == 0 { // (a transport that froze before the first kill is judged by its late returns)
+		if run.Kills == 0 && len(run.Late) == 0 && len(run.Failed) == 0 { // (a transport that froze, or failed healthy exchanges, before the first kill is judged by those)
 			c.Inconclusive("churn " + tname + ": the server never killed a connection")
 			continue
 		}
